@@ -116,7 +116,8 @@ RELAYS = [
     Relay(5, "f", True),
     Relay(6, "Unnamed", True),
     Relay(7, "Unnamed", True, flags="Exit Guard Running Valid"),
-    Relay(8, "ghostbridge", False),              # not in the consensus, nickname known
+    Relay(8, "bravo", False),                    # not in the consensus; its nickname is also the nickname of exactly
+                                                 # one consensus relay (1): a hop is identified by its fingerprint
     Relay(9, "", False, bare=True),              # not in the consensus, no nickname
     Relay(10, "rendpoint", False),
 ]
